@@ -232,6 +232,12 @@ class Session:
         self.expect.append(e)
         return e
 
+    def outcome_only(self):
+        """compare only the outcome of the last line, not the state (used
+        where the model is known not to follow the implementation's state,
+        e.g. after a syntax error met in the middle of a translation)"""
+        self.expect[-1] = self.expect[-1].split('\t')[0]
+
     def ok(self):
         return self.expect[-1].startswith('ok:')
 
@@ -308,6 +314,8 @@ def compare(lines, expect, got):
     for i, (e, g) in enumerate(zip(expect, got)):
         if e is None:
             continue
+        if '\t' not in e and '\t' in g:
+            g = g.split('\t')[0]      # only the outcome is compared on this line
         if e != g:
             return i
     return None
